@@ -278,6 +278,18 @@ CLAIMED.update({
             "DESIGN.md 5 C32"),
 })
 
+CLAIMED.update({
+    "C24": ("model_checking",
+            "Introspection.tla gives the full introspection result as a function of an abstract schema (the reference, incl. "
+            "canonical printing of coerced default values); random valid schemas using every listed construct are built and "
+            "introspected by the real code; TLC (Trace_Introspection) computes the reference for each and names every disagreement, "
+            "comparing types, directives and possibleTypes as sets and the rest in order.",
+            "Built-in descriptions and the structure of the eight introspection types are not compared; one known finding "
+            "(default values printed as written).",
+            "TLA+ reference function evaluated by TLC on recorded introspection responses of generated schemas",
+            "DESIGN.md 5 C24"),
+})
+
 NOT_APPLICABLE = {}
 
 ALL = ["C%02d" % i for i in range(1, 34)]
